@@ -91,8 +91,9 @@ pub fn run_case(doc: &[u8], lit_start: usize, kind: &str) -> String {
         // another escaped string went through the same deserializer
         ep!("getkey2", {
             match serde_json::from_slice::<String>(&doc[..lit_end]) {
-                Ok(k) if k != "e\n1\t\"q" => {
-                    let mut kd2 = b"{\"e\\n1\\t\\\"q\":[\"x\"],\"p\":1,".to_vec();
+                // (first member wins: the literal must not decode to one of the two names in front of it)
+                Ok(k) if k != "e\n1\t\"q" && k != "plain-key-0" => {
+                    let mut kd2 = b"{\"e\\n1\\t\\\"q\":[\"x\"],\"plain-key-0\":1,".to_vec();
                     kd2.extend_from_slice(&doc[..lit_end]);
                     kd2.extend_from_slice(b":30}");
                     match sonic_rs::get(&kd2[..], &[k.as_str()]) {
